@@ -246,6 +246,15 @@ def run(repo: Repo, L: Ledger, tier: str):
                 continue
             # a path that collects nothing is fine only for a scaffold known to be empty
             empty = any(norm(t).replace(" ", "") in (f"{lv}.rows", f"len({lv}.rows)") and v is False for e in p.events if e.kind == "cond" for t, v in cond_facts(e.node, e.val))
+            # ... or known to have no fragment: `first = next(<lv>.fragments(), None)` came back None
+            for e in p.events:
+                if e.kind == "cond":
+                    for t, v in cond_facts(e.node, e.val):
+                        if isinstance(t, ast.Compare) and len(t.ops) == 1 and isinstance(t.left, ast.Name) and isinstance(t.comparators[0], ast.Constant) and t.comparators[0].value is None:
+                            is_none = v if isinstance(t.ops[0], ast.Is) else (not v) if isinstance(t.ops[0], ast.IsNot) else None
+                            defs = [s_.value for s_ in walk_shallow(loops[0]) if isinstance(s_, ast.Assign) and is_name(s_.targets[0], t.left.id)]
+                            if is_none and len(defs) == 1 and norm(defs[0]).replace(" ", "") == f"next({lv}.fragments(),None)":
+                                empty = True
             if not empty:
                 conds = [f"{norm(e.node)[:40]} is {e.val}" for e in p.events if e.kind == "cond"]
                 ok7, why7 = False, f"scaffolds are skipped when {' and '.join(conds) or 'always'}: their junctions are missing from this side of the comparison, so an unedited map is reported with joins/breaks"
